@@ -712,3 +712,27 @@ func lemmaInstance(env *SpecEnv, lem *Contract) string {
 	}
 	return "(=> " + h + " (and " + strings.Join(es, " ") + " true))"
 }
+
+// atAfter applies "at [recv-stmt]: assume-env ..." clauses after a receive statement: these
+// are assumptions about what the environment delivers on a channel and are listed as such.
+func (fr *Frame) atAfter(st *State, s ast.Stmt) {
+	if fr.contract == nil {
+		return
+	}
+	key := normKey(fr.src(s))
+	for _, as := range fr.contract.Ats {
+		if normKey(as.Key) != key {
+			continue
+		}
+		for _, a := range as.Assumes {
+			env := fr.specEnv(st)
+			t, err := fr.evalClause(env, a)
+			if err != nil {
+				fr.x.u.oblige("at["+key+"]:assume-env:"+a.Label, "contract-stale", a.Src, fr.pos(s.Pos()), st.pc, "false").Clause = "contract-stale: " + err.Error()
+				continue
+			}
+			fr.x.u.gfact(st.pc, t)
+			fr.x.u.envAssumes = append(fr.x.u.envAssumes, fr.fnName+": at "+key+": "+a.Src)
+		}
+	}
+}
